@@ -286,5 +286,31 @@ PROPS['C10']['text'] += (' R7: the written structure is the scored one value for
                          'are imported.')
 PROPS['C16']['text'] += (' R6: every table string becomes one operation of the site, in order (the WyckoffSite::new obligations of '
                          'C10.R5, imported).')
+# ---- seeded round 7 (small surgical mutations around the mechanisms) --------------------------------------------------------------
+_WIRE = (' WIRE (every property, over the files it is anchored in): a call that passes named locals to parameters of the same '
+         'names (or x / y to a coordinate constructor) passes them in the parameters\' positions.')
+for _p in PROPS.values():
+    _p['text'] += _WIRE
+PROPS['C05']['text'] += ' R6: setter fidelity of the builder for kt_start / kt_finish / kt_ratio (each setter writes its own field with its argument).'
+PROPS['C09']['text'] += ' R8: setter fidelity of the builder for seed.'
+PROPS['C18']['text'] += ' R4: setter fidelity for kt_start / kt_finish / kt_ratio. R5: the temperature the acceptance probability is evaluated at (C07.R3, imported).'
+PROPS['C19']['text'] += ' R4: setter fidelity for max_step_size.'
+PROPS['C20']['text'] += ' R5: setter fidelity for steps / inner_steps / convergence. R6: both output files go to their own paths (C10.R3, imported).'
+PROPS['C10']['text'] += ' R8: the command line passes its values to the shape constructors under their own names.'
+PROPS['C11']['text'] += (' R6: what is drawn and written is the final state, to the .svg / .json paths (C10.R3, imported). R7: glyph attributes '
+                         'and path points are the x and y of one point; Transform2 -> Matrix3 returns the stored matrix; the cell outline is '
+                         'the image of the unit square under the cell\'s own lattice map, corner by corner.')
+PROPS['C12']['text'] += (' R6: a radial polygon is the closed polygon through its radial vertices (C02.R4, imported). R7: the hard-disc and the '
+                         'Lennard-Jones trimer constructors build one geometry (same centres, sigma = 2 * radius).')
+PROPS['C14']['text'] += ' R5: a cloned cell is the same lattice (C09.R3 for Cell2, imported). R6: the cell outline (C11.R7 corners, imported).'
+PROPS['C17']['text'] += (' R4: Transform2 -> Matrix3 returns the parsed matrix itself. R5: the reader of the group tables keeps every string and '
+                         'passes a parse error on (C10.R5 constructor obligations, imported).')
+PROPS['C01']['text'] += ' PAIRTEST: the pairwise predicates the state test is built from (C12 R1, R3) are imported.'
+PROPS['C03']['text'] += ' PAIR also imports C13.R6 (moving a particle keeps its parameters).'
+PROPS['C04']['text'] += ' LATTICE: the lattice vectors of the Cartesian map (C14.R1) are imported.'
+PROPS['C06']['text'] += ' R6: the score carried forward on acceptance is the proposal\'s (C07.R2, imported). R7: what the command line writes is a result of the stages (C10.R1 written-state obligations, imported).'
+PROPS['C08']['text'] += ' R6: the enclosing radius the starting cell is sized by encloses the shape (C01.R6, imported). R7: clones keep parameters and family (C09.R3, imported).'
+PROPS['C15']['text'] += ' R4: the operations applied are the group\'s (C16 R1-R3, imported).'
+PROPS['C16']['text'] += ' R7: the cell built for a family is one its operations leave invariant (C04.R3, imported).'
 PROPS['C18']['text'] += ' R2 also: every non-constant factor path of the builder that admits a given ratio yields 1 - ratio (the ratio has precedence over kt_finish).'
 
